@@ -1,6 +1,6 @@
 (* C11 — services: kept alive when requested, transient when only depended on; never two instances at once.
    Property theorems only; proofs are in Proofs/SysProc.v, Proofs/SysSvc.v, Proofs/SysC01.v. *)
-From Zinoma.Proofs Require Import SysSvc.
+From Zinoma.Proofs Require Import SysSvc SysSvcKeep.
 
 (* at every instant of every run (every prefix of the history) a service has at most one live instance, stops never
    exceed spawns, and the number of live instances is the actor's `running` flag: a restart stops the old instance first *)
@@ -27,3 +27,11 @@ Theorem C11_started_before_dependents :
     forall h1 t h2, hist s = h1 ++ ObStart t :: h2 ->
     forall d deps, eff_dep g t d -> g !! d = Some (AService, deps) -> ObSucc d ∈ h1.
 Proof. intros fx w g roots s. exact (service_started_before_dependents fx g roots w s). Qed.
+
+(* one-shot: a service that was started is left running as long as termination has not begun — it is there while the builds
+   that depend on it run, and while zinoma waits for a signal; it is stopped only by the shutdown (C10: which never gets
+   stuck and leaves nothing behind). Nobody ever sends an Unrequested message. *)
+Theorem C11_service_kept_until_termination :
+  forall (fx : bool) (g : graph) (roots : list tid) (s : sys) (t : tid),
+    reachable fx false g roots s -> (ph s = PRun \/ ph s = PWaitTerm) -> ObStop t ∉ hist s.
+Proof. exact service_kept_until_termination. Qed.
